@@ -4,6 +4,7 @@ from .. import gen, core
 from .. import gen_copyright as gc
 from ..core import rec_fields, unhex, hexs
 
+NONUTF8 = "implementation panics on a file path that is not valid UTF-8"
 KEY_RE = re.compile(r"^[!-9;-~]+$")
 
 def mini_parse(text):
@@ -103,6 +104,8 @@ class C17(Prop):
     def streams(self, tier, rng):
         yield "glob", gc.glob_cases(tier, rng)
         yield "glob", gc.glob_size_limit_cases()
+        yield "glob", gc.glob_nonutf8_cases()
+        yield "copyright", gc.copyright_nonutf8_cases()
         yield "copyright", gc.copyright_cases(tier, rng)
         yield "copyright", gc.copyright_malformed_cases(tier, rng)
 
@@ -117,10 +120,14 @@ class C17(Prop):
     def oracle_glob(self, fields, impl):
         pats = gc.split_ws(unhex(fields[0]))
         bits = rec_fields(impl).get("m", "")
-        paths = [unhex(p) for p in fields[1:]]
+        paths = [None if p.startswith("!") else unhex(p) for p in fields[1:]]
         if len(bits) != len(paths):
             return "record length"
         for p, b in zip(paths, bits):
+            if p is None:
+                if b == "P" and gc.field_matches(pats, "") is not None:
+                    return NONUTF8
+                continue                 # not a string: the reference matcher has no opinion
             exp = gc.field_matches(pats, p)
             if exp is None:
                 continue                 # an invalid escape is reached: DEP-5 error, no claim
@@ -145,7 +152,7 @@ class C17(Prop):
     def oracle_copyright(self, fields, impl):
         text = unhex(fields[0])
         k = int(fields[1])
-        paths = [unhex(p) for p in fields[2:2 + k]]
+        paths = [None if p.startswith("!") else unhex(p) for p in fields[2:2 + k]]
         names = [unhex(p) for p in fields[2 + k:]]
         try:
             r, lf, ls = self.parse_copyright_record(impl)
@@ -197,6 +204,11 @@ class C17(Prop):
         ll_answers = []
         for path, q in zip(paths, lq):
             bits, ff, fl = q.split("/")
+            if path is None:
+                if "P" in q and None not in [gc.field_matches(pats, "") for pats, _, _, _ in lf]:
+                    return NONUTF8
+                ll_answers.append(None)
+                continue
             exp_bits = [gc.field_matches(pats, path) for pats, _, _, _ in lf]
             if None in exp_bits:
                 ll_answers.append(None)      # invalid escape reached: no claim about this path
@@ -253,6 +265,8 @@ class C17(Prop):
         return impl.startswith("ll=OK") and re.search(r"[;=][01P]*1[01P]*/", impl) is not None
 
     def known_class(self, stream, fields, impl, model, why):
+        if why == NONUTF8:
+            return "non-utf8-path"
         if stream == "glob":
             if "P" in impl and gc.in_regex_size_class(gc.split_ws(unhex(fields[0]))):
                 return "glob-regex-size-limit"
@@ -267,6 +281,9 @@ class C17(Prop):
 
     def shrink_field(self, stream):
         return 0
+
+    def readable_path(self, p):
+        return p if p.startswith("!") else unhex(p)
 
     def neighbours(self, stream, fields):
         s = unhex(fields[0])
